@@ -37,7 +37,8 @@ PROBES = ["ran_to_completion", "forced_cleanup_deleted_preexisting", "refused_wi
           "fault_crash", "fault_eio_copy", "fault_enospc_write", "fault_eacces_mkdir", "second_run_on_residue", "copied_files",
           "relative_workspace", "default_workspace", "input_via_symlinked_ancestor", "cwd_contains_default_name",
           "c_language", "c_header_preprocess", "second_run_other_project", "second_run_incremental", "spawned_subprocess", "graph_output", "javascript_language",
-          "inputs_share_base_name", "input_given_with_leading_dotdots", "strict_parse_mode", "non_utf8_source_file"]
+          "inputs_share_base_name", "input_given_with_leading_dotdots", "strict_parse_mode", "non_utf8_source_file",
+          "pwd_is_start_directory", "pwd_left_over_from_launcher", "two_inputs_contain_workspace"]
 # the same check again, smaller, in interpreters started with assertions stripped (python -O / PYTHONOPTIMIZE=1)
 ENV_VARIANTS = [{"name": "python-O", "env": {"PYTHONOPTIMIZE": "1"}, "runs": {'quick': 250, 'thorough': 2500}}]
 TIERS = {
@@ -101,6 +102,9 @@ def gen_knobs(rng, tier):
         "deep_cwd": rng.random() < 0.3,
         "strict": rng.random() < 0.2,
         "latin1": rng.random() < 0.25,
+        # $PWD of the process: not set, the start directory, or left over from wherever the launching program was
+        "pwd_env": rng.choice(["unset", "unset", "correct", "stale", "stale"]),
+        "nested_inputs": rng.random() < 0.2,
         "tier": tier,
     }
 
@@ -164,6 +168,9 @@ def generate(rng, k):
     ops.append({"op": "mkfile", "path": "bystander/precious.py", "content": "SECRET = 1\n"})
     ops.append({"op": "mkfile", "path": "keep.txt", "content": "root bystander\n"})
     ops.append({"op": "mkdir", "path": "cw"})
+    if k.get("pwd_env") == "stale":
+        ops.append({"op": "mkfile", "path": f"elsewhere_pwd/{DEFAULT_WS}/frontend/results_of_another_analysis.txt", "content": "keep me\n"})
+        ops.append({"op": "mkfile", "path": "elsewhere_pwd/outp/note.txt", "content": "keep me too\n"})
     placement = k["placement"]
     inputs = []          # path relative to R
     ws_opt = None        # value given to -w, relative to R ('' prefix handled by form)
@@ -200,6 +207,15 @@ def generate(rng, k):
         _tree(rng, k, "in0", ops)
         inputs.append("in0")
         ws_opt = rng.choice(["in0", "in0/out", "in0"])
+        if k.get("nested_inputs"):
+            # two inputs that BOTH contain the workspace: a project and one of its sub-directories, or one tree named twice
+            if rng.random() < 0.6:
+                ops.append({"op": "mkdir", "path": "in0/sub_in"})
+                _tree(rng, k, "in0/sub_in", ops)
+                inputs.append("in0/sub_in")
+                ws_opt = rng.choice(["in0/sub_in", "in0/sub_in/out"])
+            else:
+                inputs.append("in0")
     elif placement == "input_inside_ws":
         p = f"wsroot/{DEFAULT_WS}/old/proj"
         ops.append({"op": "mkdir", "path": p})
@@ -221,7 +237,7 @@ def generate(rng, k):
     cwd = "cw"
     if k["cwd_in_input"] and inputs and not inputs[0].endswith(".py"):
         cwd = inputs[0]
-    run = {"op": "run", "sub": k["sub"], "lang": k["lang"], "force": k["force"], "cwd": cwd,
+    run = {"op": "run", "sub": k["sub"], "lang": k["lang"], "force": k["force"], "cwd": cwd, "pwd_env": k.get("pwd_env", "unset"),
            "flags": (["--nomock"] if k["nomock"] else []) + (["-I"] if k["lang"] == "c" and k.get("c_preprocess") else [])
                     + (["--strict-parse-mode"] if k.get("strict") else [])
                     + ((["--graph", "--enable-p2"] if k.get("graph") and k["sub"] != "lang" else []))}
@@ -383,6 +399,8 @@ def execute(trace):
                     hit("file_input")
                 if DEFAULT_WS in ir and not fsseam._inside(ir, W):
                     hit("default_name_coincidence")
+            if sum(1 for ir in input_real if fsseam._inside(W, ir)) > 1:
+                hit("two_inputs_contain_workspace")
             if len(in_args) > 1:
                 hit("multi_input")
                 bases = [os.path.basename(a.rstrip("/")) for a in in_args]
@@ -424,13 +442,15 @@ def execute(trace):
             exts = _exts(op["lang"])
             eligible = elig_bytes = n_dirs = 0
             for p_, v_ in before.items():
-                if not any((fsseam._inside(p_, ir) or p_ == ir) for ir in input_real):
+                # every input is copied once: a file below two of the inputs (nested inputs, one tree named twice) counts twice
+                mult = sum(1 for ir in input_real if (fsseam._inside(p_, ir) or p_ == ir))
+                if not mult:
                     continue
                 if v_[0] == "d":
-                    n_dirs += 1
+                    n_dirs += mult
                 if v_[0] == "f" and os.path.splitext(p_)[1].lower() in exts:
-                    eligible += 1
-                    elig_bytes += v_[1]
+                    eligible += mult
+                    elig_bytes += v_[1] * mult
             # directories between an input root and a workspace inside it are created by the run itself and mirrored by the copy
             ws_depth = max([len(os.path.relpath(W, ir).split(os.sep)) for ir in input_real if fsseam._inside(W, ir)] or [0])
             report_path = os.path.join(B, f"report{n_run}.json")
@@ -452,8 +472,16 @@ def execute(trace):
                 seam.install()
                 return lambda: _report(seam)
 
-            out = lianrun.run_forked(_M, argv, cwd_abs, report_path, stdio_path, before_run=before_run, timeout=150,
-                                     env={"HOME": home, "TMPDIR": tmpd, "MPLCONFIGDIR": os.path.join(home, "mpl")})
+            env_ = {"HOME": home, "TMPDIR": tmpd, "MPLCONFIGDIR": os.path.join(home, "mpl")}
+            pwd_kind = op.get("pwd_env", "unset")
+            if pwd_kind == "correct":
+                env_["PWD"] = cwd_abs
+                hit("pwd_is_start_directory")
+            elif pwd_kind == "stale" and os.path.isdir(os.path.join(R, "elsewhere_pwd")):
+                env_["PWD"] = os.path.join(R, "elsewhere_pwd")
+                hit("pwd_left_over_from_launcher")
+            out = lianrun.run_forked(_M, argv, cwd_abs, report_path, stdio_path, before_run=before_run, timeout=150, env=env_,
+                                     unset_env=("PWD",) if pwd_kind == "unset" else ())
             rep = out.get("report") or {}
             status = out.get("status", "?")
             outcome = status.split(":")[0] if not status.startswith("exit") else status
